@@ -215,8 +215,18 @@ static int32_t wr_index(struct jls_core_fsr_s * self, uint8_t level) {
 
 static int32_t wr_summary(struct jls_core_fsr_s * self, uint8_t level) {
     struct jls_core_fsr_level_s * dst = self->level[level];
+    if (!dst->index->header.entry_count) {
+        return 0;  // nothing pending at this level
+    }
     if (!dst->summary->header.entry_count) {
-        return 0;
+        // An empty summary is written only when its index refers to a chunk
+        // that cannot be reached otherwise.  The first chunk of the level
+        // below is reachable through its own track head, but the reader
+        // always finds data chunks through the level 1 index.
+        struct jls_core_track_s * track = &self->parent->tracks[JLS_TRACK_TYPE_FSR];
+        if ((level > 1) && (dst->index->header.entry_count <= 1) && (0 == track->head_offsets[level])) {
+            return 0;
+        }
     }
     int64_t pos_next = jls_raw_chunk_tell(self->parent->parent->raw);
     ROE(wr_index(self, level));
